@@ -83,9 +83,16 @@ static std::string variant_name(int v) {
 }
 struct Units { double unit, precision; };
 static const Units UNITS[] = {{1e-6, 1e-9}, {1e-3, 1e-6}, {1e-6, 5e-10}};
-static Library build_library(int variant, int ui, int perm) {
+// namelen > 0: the library name is that many characters long (LIBNAME is the one variable-length record before UNITS)
+static std::string libname_of(int namelen) {
+    if (namelen <= 0) return "C17LIB";
+    std::string s;
+    for (int i = 0; i < namelen; i++) s += (char)('A' + (i * 7 + i / 26) % 26);
+    return s;
+}
+static Library build_library(int variant, int ui, int perm, int namelen = 0) {
     Library lib = {};
-    lib.init("C17LIB", UNITS[ui].unit, UNITS[ui].precision);
+    lib.init(libname_of(namelen).c_str(), UNITS[ui].unit, UNITS[ui].precision);
     Cell* cells[4];
     const char* names[4] = {"LEAF", "MID", "TOPCELL", "ISLAND"};
     for (int i = 0; i < 4; i++) { cells[i] = (Cell*)allocate_clear(sizeof(Cell)); cells[i]->init(names[i]); }
@@ -246,7 +253,15 @@ static void run_file(Ctx& cx, const std::string& path, const Expect& ex) {
     const bool deep = R->thorough();
     ErrorCode ec = ErrorCode::NoError;
     Library full = read_gds(path.c_str(), 0, 1e-2, NULL, &ec);
-    if ((int)ec >= (int)ErrorCode::ChecksumError || (ec != ErrorCode::NoError && !(ex.may_miss_reference && ec == ErrorCode::MissingReference))) R->internal_error(fmt("full load of corpus file %s failed with code %d", cx.name.c_str(), (int)ec));
+    if ((int)ec >= (int)ErrorCode::ChecksumError || (ec != ErrorCode::NoError && !(ex.may_miss_reference && ec == ErrorCode::MissingReference))) {
+        // a legal file (written by the library itself or by the independent encoder) that the full load rejects: the lightweight
+        // queries cannot agree with it; reported as a violation, not as a harness failure
+        cx.what = "full load of a legal file";
+        viol(cx, "full_load", "error-code", {}, fmt("read_gds returned code %d (%llu cells) on a legal file", (int)ec, (unsigned long long)full.cell_array.count), "part=full");
+        R->count("cases");
+        full.free_all();
+        return;
+    }
 
     // ---- (a) gds_info
     {
@@ -567,10 +582,10 @@ static void run_file(Ctx& cx, const std::string& path, const Expect& ex) {
     full.free_all();
 }
 
-static void run_library(int variant, int ui, int perm) {
-    Ctx cx{variant_name(variant), fmt("variant=%d ui=%d perm=%d", variant, ui, perm), UNITS[ui].unit, UNITS[ui].precision, perm, ""};
+static void run_library(int variant, int ui, int perm, int namelen = 0) {
+    Ctx cx{variant_name(variant) + (namelen > 0 ? fmt("+libname%d", namelen) : std::string()), fmt("variant=%d ui=%d perm=%d name=%d", variant, ui, perm, namelen), UNITS[ui].unit, UNITS[ui].precision, perm, ""};
     std::string path = R->scratch + fmt("/c17.%d.gds", (int)getpid());
-    Library src = build_library(variant, ui, perm);
+    Library src = build_library(variant, ui, perm, namelen);
     tm t = FIXED_TM;
     if (src.write_gds(path.c_str(), 199, &t) != ErrorCode::NoError) R->internal_error("corpus write failed");
     Expect ex = {UNITS[ui].unit, UNITS[ui].precision, 1e-14, FIXED_TM, feat_of(variant).absent};
@@ -669,7 +684,7 @@ int main(int argc, char** argv) {
     if (run.replaying()) {
         if (!run.rarg("indep").empty()) {
             for (size_t k = 0; k < g_indep.size(); k++) if (g_indep[k] == run.rarg("indep")) run_indep((int)k);
-        } else run_library(atoi(run.rarg("variant").c_str()), atoi(run.rarg("ui").c_str()), atoi(run.rarg("perm").c_str()));
+        } else run_library(atoi(run.rarg("variant").c_str()), atoi(run.rarg("ui").c_str()), atoi(run.rarg("perm").c_str()), atoi(run.rarg("name").c_str()));
         return run.finish();
     }
     // quick: the 7 hand-made variants + 5 mixes, structure orders {as listed, reversed, one mixed}; thorough: all 33 variants x all 24 orders
@@ -681,17 +696,21 @@ int main(int argc, char** argv) {
         perms = {0, 23, 9};
     }
     const int nu = 3;
-    struct Job { int variant, ui, perm, indep; };
+    struct Job { int variant, ui, perm, indep, namelen; };
     std::vector<Job> jobs;
-    for (size_t k = 0; k < g_indep.size(); k++) jobs.push_back({0, 0, 0, (int)k});
-    for (int q : perms) for (int v : variants) for (int u = 0; u < nu; u++) jobs.push_back({v, u, q, -1});
+    for (size_t k = 0; k < g_indep.size(); k++) jobs.push_back({0, 0, 0, (int)k, 0});
+    // library names of every record-length class: 1 and 2 (odd/even padding), around 32/64/256 bytes, 4-digit lengths, records of
+    // 2^15 bytes and more (length word with the top bit set) and the longest string a record can hold
+    std::vector<int> namelens = {1, 2, 31, 32, 57, 60, 61, 127, 255, 256, 1000, 4001, 32763, 32764, 32766, 40000, 65530};
+    for (int nl : namelens) for (int v : {0, NBASE - 1}) jobs.push_back({v, nl % 3, 0, -1, nl});
+    for (int q : perms) for (int v : variants) for (int u = 0; u < nu; u++) jobs.push_back({v, u, q, -1, 0});
     int64_t n = (int64_t)jobs.size();
-    auto body = [&](int64_t i) { const Job& j = jobs[i]; if (j.indep >= 0) run_indep(j.indep); else run_library(j.variant, j.ui, j.perm); };
-    auto describe = [&](int64_t i) { const Job& j = jobs[i]; return j.indep >= 0 ? jobj({{"library", jstr(g_indep[j.indep])}}) : jobj({{"library", jstr(variant_name(j.variant))}, {"unit", jnum(UNITS[j.ui].unit)}, {"cell_order", jint(j.perm)}}); };
-    auto replay_of = [&](int64_t i) { const Job& j = jobs[i]; return j.indep >= 0 ? "indep=" + g_indep[j.indep] : fmt("variant=%d ui=%d perm=%d", j.variant, j.ui, j.perm); };
+    auto body = [&](int64_t i) { const Job& j = jobs[i]; if (j.indep >= 0) run_indep(j.indep); else run_library(j.variant, j.ui, j.perm, j.namelen); };
+    auto describe = [&](int64_t i) { const Job& j = jobs[i]; return j.indep >= 0 ? jobj({{"library", jstr(g_indep[j.indep])}}) : jobj({{"library", jstr(variant_name(j.variant))}, {"unit", jnum(UNITS[j.ui].unit)}, {"cell_order", jint(j.perm)}, {"library_name_length", jint(j.namelen ? j.namelen : 6)}}); };
+    auto replay_of = [&](int64_t i) { const Job& j = jobs[i]; return j.indep >= 0 ? "indep=" + g_indep[j.indep] : fmt("variant=%d ui=%d perm=%d name=%d", j.variant, j.ui, j.perm, j.namelen); };
     bool ok = parallel_for(run, n, body, describe, replay_of, PFOptions{300, "c17.crash", true});
     run.sample("c17", jobj({{"library", jstr("full_mix, unit 1e-6/1e-9")}, {"sub-cases", jstr("gds_info; gds_units; gds_timestamp; read_gds with each of 2^k+ tag filter sets; target units x 2 tolerances; every non-empty subset of the cells as raw cells via Library::write_gds and GdsWriter::write_rawcell in several write orders; timestamp rewrites")}}));
-    run.bound("c17", fmt("%zu independently encoded files + %zu content variants x %d unit pairs x %zu structure orders; per file: all tag subsets (+absent tag), %s target units x 2 tolerances, all raw-cell subsets x 2 writers x %s, %s timestamps",
+    run.bound("c17", fmt("%zu independently encoded files + 17 library-name lengths (1..65530) x 2 variants + %zu content variants x %d unit pairs x %zu structure orders; per file: all tag subsets (+absent tag), %s target units x 2 tolerances, all raw-cell subsets x 2 writers x %s, %s timestamps",
                          g_indep.size(), variants.size(), nu, perms.size(), run.thorough() ? "8" : "5", run.thorough() ? "every write order of the closure (+ map order)" : "4 write orders", run.thorough() ? "7" : "2"), ok, n);
     return run.finish();
 }
